@@ -98,22 +98,42 @@ static bool same_extents(const A & a, const B & b)
     return true;
 }
 
-template <int LA, int LB, std::size_t N, typename S, std::size_t M>
+template <int LA, int LB, std::size_t N, typename S, std::size_t M, typename IDX = std::size_t>
 struct Conv {
-    using idx_d = cv::vector_d<std::size_t, N>;
+    using idx_d = cv::vector_d<IDX, N>;
     using store_t = cb::array<cv::vector_d<S, M>>;
     using A = typename layer_of<LA, idx_d, store_t>::type;
     using Bk = typename layer_of<LB, idx_d, store_t>::type;
     using FA = covfie::field<A>;
     using FB = covfie::field<Bk>;
 
+    // a few elongated extent vectors (one axis far longer than the exhaustive bound): narrow coordinate types
+    // lose high coordinate bits long before size_t does
+    static void run_listed(vh::Rng & rng)
+    {
+        static const std::size_t L2[][2] = {{3, 300}, {260, 2}, {70, 5}, {1, 1025}};
+        static const std::size_t L3[][3] = {{3, 70, 2}, {2, 2, 70}, {66, 1, 3}, {5, 3, 68}};
+        const std::size_t n = 4;
+        for (std::size_t i = 0; i < n; ++i) {
+            sc::ext_t<N> e;
+            for (std::size_t k = 0; k < N; ++k) e[k] = N == 2 ? L2[i][k] : L3[i][k % 3];
+            one(e, rng, true);
+        }
+    }
     static void run(std::size_t Bnd, vh::Rng & rng)
     {
-        const std::string nm = std::string(lname[LA]) + "->" + lname[LB] + ",N=" + std::to_string(N) + ",array<" + vh::tn<S>() + "," + std::to_string(M) + ">";
-        if (!vh::selected(nm)) return;
         sc::ext_t<N> e;
         for (std::size_t k = 0; k < N; ++k) e[k] = 1;
         do {
+            one(e, rng, false);
+        } while (sc::next_ext<N>(e, Bnd));
+    }
+    static void one(const sc::ext_t<N> & e, vh::Rng & rng, bool listed)
+    {
+        const std::string nm = std::string(lname[LA]) + "->" + lname[LB] + ",N=" + std::to_string(N) + ",array<" + vh::tn<S>() + "," + std::to_string(M) + ">" + (std::is_same_v<IDX, std::size_t> ? "" : std::string(",idx=") + vh::tn<IDX>());
+        if (!vh::selected(nm)) return;
+        (void)listed;
+        {
             vh::set_case("%s extents=%s", nm.c_str(), sc::show<N>(e).c_str());
             const std::string d = "extents=" + sc::show<N>(e) + " ";
             FA a(covfie::make_parameter_pack(typename A::configuration_t(e), covfie::utility::nd_size<1>{storage_len<LA, N>(e)}));
@@ -155,7 +175,7 @@ struct Conv {
                 vh::nontrivial(vh::fnv(&e, sizeof e, vh::fnv(nm)));
                 if (sc::cells<N>(e) > 8) vh::sample(nm, d + "cells=" + std::to_string(sc::cells<N>(e)) + " source storage=" + std::to_string(storage_len<LA, N>(e)) + " target storage=" + std::to_string(storage_len<LB, N>(e)), 1);
             }
-        } while (sc::next_ext<N>(e, Bnd));
+        }
     }
 };
 
@@ -349,6 +369,14 @@ int main(int argc, char ** argv)
     targets_all_n<L_MORTON_F>(rng, B);
     Conv<SH_SRC, L_HILBERT, 2, float, 1>::run(B[2], rng);
     Conv<SH_SRC, L_HILBERT, 2, double, 3>::run(B[2], rng);
+    // narrow coordinate types, elongated extents
+    Conv<SH_SRC, L_STRIDED, 2, float, 1, unsigned short>::run_listed(rng);
+    Conv<SH_SRC, L_MORTON_T, 2, float, 1, unsigned short>::run_listed(rng);
+    Conv<SH_SRC, L_MORTON_T, 3, float, 1, unsigned short>::run_listed(rng);
+    Conv<SH_SRC, L_MORTON_F, 3, double, 3, unsigned short>::run_listed(rng);
+    Conv<SH_SRC, L_MORTON_T, 3, float, 1, unsigned>::run_listed(rng);
+    Conv<SH_SRC, L_STRIDED, 3, float, 1, int>::run_listed(rng);
+    Conv<SH_SRC, L_MORTON_T, 2, double, 3, unsigned char>::run(B[2], rng);
     // whole stacks, as the benchmarks convert them
     Stack<SH_SRC, L_STRIDED, false, true, 3, float, 3>::run(B[3], rng, 3);
     Stack<SH_SRC, L_MORTON_T, false, false, 3, float, 3>::run(B[3], rng, 3);
